@@ -31,10 +31,18 @@ TypQuick == { <<48>>, <<49>>, <<50>>, <<55>>, <<56>>, <<45>>, <<107>>, <<77>>, <
               <<57,48,48,55,49,57,57,50,53,52,55,52,48,57,57>> }                    \* 900719925474099 (+1k / +2k)
 TypWide == TypQuick \cup { <<43>>, <<120>>, <<126>>, <<97>>, <<102,65,76,83,69>>, <<111,102,102>>, <<121,101,115>>, <<47>>, <<TAB>>, <<102>>, <<71>>, <<75>>, <<109>>, <<88>> }
 
-Tok == IF Mode = "value" THEN (IF Wide THEN ValWide ELSE ValQuick)
+\* Mode "cont": whole entries of two keys of one section, with values continued over lines and without
+ContToks == { <<107, EQ, 97, BSL, NL, 98, NL>>,       \* k=a\<lf>b<lf>
+              <<106, EQ, 99, BSL, NL, 100, NL>>,      \* j=c\<lf>d<lf>
+              <<107, EQ, 118, NL>>,                   \* k=v<lf>
+              <<106, EQ, 119, NL>>,                   \* j=w<lf>
+              <<107, NL>> }                           \* k<lf>
+Tok == IF Mode = "cont" THEN ContToks ELSE
+       IF Mode = "value" THEN (IF Wide THEN ValWide ELSE ValQuick)
        ELSE IF Mode = "struct" THEN (IF Wide THEN StrWide ELSE StrQuick)
        ELSE (IF Wide THEN TypWide ELSE TypQuick)
-Prefix == IF Mode = "value" THEN <<LBR, 97, RBR, NL, 107, EQ>> ELSE <<>>     \* [a]<lf>k=
+Prefix == IF Mode = "value" THEN <<LBR, 97, RBR, NL, 107, EQ>>               \* [a]<lf>k=
+          ELSE IF Mode = "cont" THEN <<LBR, 97, RBR, NL>> ELSE <<>>
 
 VARIABLES toks, done
 vars == <<toks, done>>
